@@ -504,3 +504,459 @@ func ruleERRKEEP(w *World, r *Report) {
 	}
 	r.stat("errkeep_sites", n)
 }
+
+// ---------------------------------------------------------------------------
+// SLICECAP: a table made with make(n) is resliced only within its length
+
+const ruleSLICECAPText = "reslicing a made table stays inside it: in par1 and par2, for x = make([]T, n) and a later x[:h], h <= n is shown - by constants, by intervals, or structurally: h = a + c where every value a can take is a constant k with n >= k + c established at the reslice (n != 0, n > k', len(x) > 0 ...) or a loop index v assigned under v < n with c <= 1. A table of archive-determined size can have length 0 (PAR1: 256 listed files leave room for no parity volume), and `x[:last+1]` with last still 0 then panics"
+
+func ruleSLICECAP(w *World, r *Report) {
+	r.rule("SLICECAP", ruleSLICECAPText)
+	rangeWorld = w
+	n := 0
+	for _, fn := range w.funcsInPkgs("par1", "par2") {
+		k := 0
+		for _, b := range fn.Blocks {
+			for _, in := range b.Instrs {
+				sl, ok := in.(*ssa.Slice)
+				if !ok || sl.High == nil {
+					continue
+				}
+				mk, ok := stripConv(sl.X).(*ssa.MakeSlice)
+				if !ok {
+					continue
+				}
+				key := fmt.Sprintf("%s:reslice#%d", shortName(fn), k)
+				k++
+				n++
+				nv := mk.Len
+				// lower bound on n known at the reslice: from facts on n itself or on len(x)
+				rc := &rangeCtx{memo: map[ssa.Value]*ival{}, busy: map[ssa.Value]bool{}}
+				nlo := int64(0)
+				if iv := rc.eval(nv, b); iv != nil && iv.lo.IsInt64() && iv.lo.Int64() > nlo {
+					nlo = iv.lo.Int64()
+				}
+				for _, c := range cmpsAt(b) {
+					if c.Y == nil {
+						continue
+					}
+					for _, pr := range []struct {
+						x, y ssa.Value
+						op   token.Token
+					}{{c.X, c.Y, c.Op}, {c.Y, c.X, swapOp(c.Op)}} {
+						isN := stripAllConv(pr.x) == stripAllConv(nv)
+						if lc := isBuiltinCall(stripConv(pr.x), "len"); lc != nil && stripConv(lc.Call.Args[0]) == ssa.Value(mk) {
+							isN = true
+						}
+						z, isC := constInt(pr.y)
+						if !isN || !isC {
+							continue
+						}
+						switch pr.op {
+						case token.NEQ:
+							if z == 0 && nlo < 1 {
+								nlo = 1
+							}
+						case token.GTR:
+							if z+1 > nlo {
+								nlo = z + 1
+							}
+						case token.GEQ:
+							if z > nlo {
+								nlo = z
+							}
+						}
+					}
+				}
+				// h = a + c
+				h := stripAllConv(sl.High)
+				c := int64(0)
+				a := h
+				if bo, ok := h.(*ssa.BinOp); ok && bo.Op == token.ADD {
+					if cv, isC := constInt(bo.Y); isC && cv >= 0 {
+						a, c = stripAllConv(bo.X), cv
+					}
+				}
+				why := ""
+				seen := map[ssa.Value]bool{}
+				var leaf func(v ssa.Value, at *ssa.BasicBlock)
+				leaf = func(v ssa.Value, at *ssa.BasicBlock) {
+					if why != "" || seen[v] {
+						return
+					}
+					seen[v] = true
+					v = stripAllConv(resolveSingle(stripAllConv(v)))
+					if kv, isC := constInt(v); isC {
+						if kv+c > nlo {
+							why = fmt.Sprintf("the bound can be %d while the table is only known to have at least %d elements", kv+c, nlo)
+						}
+						return
+					}
+					// a value assigned under a bound by n (a loop index is a phi too: ask this first):
+					// v = w + k with w < n needs k + c <= 1, with w <= n needs k + c <= 0
+					if at != nil {
+						wv, kk := v, int64(0)
+						if bo, ok := v.(*ssa.BinOp); ok && (bo.Op == token.ADD || bo.Op == token.SUB) {
+							if kv, isC := constInt(bo.Y); isC {
+								wv = stripAllConv(bo.X)
+								if bo.Op == token.SUB {
+									kv = -kv
+								}
+								kk = kv
+							}
+						}
+						for _, f := range cmpsAt(at) {
+							if f.Y == nil || stripAllConv(f.Y) != stripAllConv(nv) {
+								continue
+							}
+							if fx := stripAllConv(f.X); fx != wv && !cellLoadsEqual(fx, wv) {
+								continue
+							}
+							if (f.Op == token.LSS && kk+c <= 1) || (f.Op == token.LEQ && kk+c <= 0) {
+								return
+							}
+						}
+						// the comparison may be the pred block's own branch (rotated loops)
+						if len(at.Instrs) > 0 {
+							if iff, ok := at.Instrs[len(at.Instrs)-1].(*ssa.If); ok {
+								for _, truth := range []bool{true, false} {
+									si := 0
+									if !truth {
+										si = 1
+									}
+									if si < len(at.Succs) && at.Succs[si] != nil {
+										for _, f := range factCmps(Fact{iff.Cond, truth, iff}) {
+											_ = f
+										}
+									}
+								}
+							}
+						}
+					}
+					if phi, ok := v.(*ssa.Phi); ok {
+						for i, e := range phi.Edges {
+							if i < len(phi.Block().Preds) {
+								leaf(e, phi.Block().Preds[i])
+							}
+						}
+						return
+					}
+					// a value assigned under v < n
+					if c <= 1 && at != nil {
+						facts := cmpsAt(at)
+						if iff, ok := at.Instrs[len(at.Instrs)-1].(*ssa.If); ok {
+							_ = iff
+						}
+						for _, f := range facts {
+							if f.Op == token.LSS && f.Y != nil && (stripAllConv(f.X) == v || cellLoadsEqual(stripAllConv(f.X), v)) && stripAllConv(f.Y) == stripAllConv(nv) {
+								return
+							}
+						}
+					}
+					// v <= len(x) / v <= n established at the reslice (c must be 0), e.g. `if v > len(x) { return err }`
+					if c == 0 {
+						for _, f := range cmpsAt(b) {
+							if f.Y == nil {
+								continue
+							}
+							for _, pr := range []struct {
+								x, y ssa.Value
+								op   token.Token
+							}{{f.X, f.Y, f.Op}, {f.Y, f.X, swapOp(f.Op)}} {
+								if (stripAllConv(pr.x) != v && !sameImage(stripAllConv(pr.x), v)) || (pr.op != token.LEQ && pr.op != token.LSS) {
+									continue
+								}
+								y := stripAllConv(pr.y)
+								if y == stripAllConv(nv) {
+									return
+								}
+								if lc := isBuiltinCall(y, "len"); lc != nil && stripConv(lc.Call.Args[0]) == ssa.Value(mk) {
+									return
+								}
+							}
+						}
+					}
+					// interval fallback
+					if iv := rc.eval(v, at); iv != nil && iv.hi.IsInt64() && iv.hi.Int64()+c <= nlo {
+						return
+					}
+					why = fmt.Sprintf("nothing bounds %s (+%d) by the table's length", v.Name(), c)
+				}
+				leaf(a, b)
+				if why == "" {
+					r.ok("SLICECAP", key, w.ipos(sl), "the new length is shown not to exceed the length the table was made with")
+				} else {
+					r.bad("SLICECAP", key, w.ipos(sl), "x[:h] on a table made with make(n): "+why+" - when the archive makes n zero this reslice panics")
+				}
+			}
+		}
+	}
+	r.floor("SLICECAP", "reslices of made tables", n, 1)
+}
+
+// cellLoadsEqual: a and b are loads of the same local cell (a variable captured by a closure
+// lives in one) and no store to the cell can execute between them: a's block dominates b's,
+// and from no store to the cell can b be reached without passing through a's block again.
+func cellLoadsEqual(a, b ssa.Value) bool {
+	la, ok1 := a.(*ssa.UnOp)
+	lb, ok2 := b.(*ssa.UnOp)
+	if !ok1 || !ok2 || la.Op != token.MUL || lb.Op != token.MUL || la.X != lb.X {
+		return false
+	}
+	cell, ok := la.X.(*ssa.Alloc)
+	if !ok {
+		return false
+	}
+	if !(la.Block() == lb.Block() || la.Block().Dominates(lb.Block())) {
+		return false
+	}
+	pos := func(in ssa.Instruction) int {
+		for i, x := range in.Block().Instrs {
+			if x == in {
+				return i
+			}
+		}
+		return -1
+	}
+	for _, ref := range referrersOf(cell) {
+		var at ssa.Instruction
+		switch x := ref.(type) {
+		case *ssa.Store:
+			if x.Addr == ssa.Value(cell) {
+				at = x
+			}
+		case *ssa.MakeClosure:
+			// a closure that captured the cell may assign it when called: look for stores through its free variable
+			if lit, ok := x.Fn.(*ssa.Function); ok {
+				for j, bnd := range x.Bindings {
+					if bnd == ssa.Value(cell) && j < len(lit.FreeVars) {
+						for _, r2 := range referrersOf(lit.FreeVars[j]) {
+							if st, ok := r2.(*ssa.Store); ok && st.Addr == ssa.Value(lit.FreeVars[j]) {
+								return false
+							}
+						}
+					}
+				}
+			}
+		}
+		if at == nil {
+			continue
+		}
+		sb := at.Block()
+		// a store between the two loads in straight-line order
+		if sb == la.Block() && pos(at) > pos(la) && (lb.Block() != sb || pos(at) < pos(lb)) {
+			return false
+		}
+		if sb == lb.Block() && sb != la.Block() && pos(at) < pos(lb) {
+			return false
+		}
+		if sb == la.Block() || sb == lb.Block() {
+			continue
+		}
+		// can b's block be reached from the store without passing a's block?
+		seen := map[*ssa.BasicBlock]bool{la.Block(): true}
+		work := []*ssa.BasicBlock{sb}
+		for len(work) > 0 {
+			x := work[len(work)-1]
+			work = work[:len(work)-1]
+			for _, sx := range x.Succs {
+				if seen[sx] {
+					continue
+				}
+				seen[sx] = true
+				if sx == lb.Block() {
+					return false
+				}
+				work = append(work, sx)
+			}
+		}
+	}
+	return true
+}
+
+// ---------------------------------------------------------------------------
+// PAR1NOPAR: without any parity volume PAR1 repair gives the classifier's verdict
+
+const rulePAR1NOPARText = "no parity volume is 'needed but not possible', not a generic failure: in (*par1.Decoder).Repair the shards are built (buildShards, whose size check 'data file bigger than parity data' misfires when no parity volume was loaded and the shard size is still 0) only on a path where a parity volume is known to have been loaded (shardByteCount != 0 or a non-empty parity table), and on the other path a missing data file yields reedsolomon.ErrTooFewShards - the error the PAR1 classifier and the CLI's exit status 2 recognise"
+
+func rulePAR1NOPAR(w *World, r *Report) {
+	r.rule("PAR1NOPAR", rulePAR1NOPARText)
+	fn := w.Fn("(*par1.Decoder).Repair")
+	if fn == nil {
+		r.unk("PAR1NOPAR", "(*par1.Decoder).Repair", "", "function not found")
+		return
+	}
+	parityFact := func(c Cmp, wantZero bool) bool {
+		if c.Y == nil {
+			return false
+		}
+		for _, pr := range []struct {
+			x, y ssa.Value
+			op   token.Token
+		}{{c.X, c.Y, c.Op}, {c.Y, c.X, swapOp(c.Op)}} {
+			z, isC := constInt(pr.y)
+			if !isC {
+				continue
+			}
+			x := stripAllConv(pr.x)
+			isParity := strings.HasSuffix(deepPath(x).Path, ".shardByteCount")
+			if lc := isBuiltinCall(x, "len"); lc != nil && strings.HasSuffix(deepPath(lc.Call.Args[0]).Path, ".parityData") {
+				isParity = true
+			}
+			if !isParity {
+				continue
+			}
+			if wantZero && pr.op == token.EQL && z == 0 {
+				return true
+			}
+			if !wantZero && ((pr.op == token.NEQ && z == 0) || (pr.op == token.GTR && z >= 0) || (pr.op == token.GEQ && z >= 1)) {
+				return true
+			}
+		}
+		return false
+	}
+	n := 0
+	for _, f := range region(fn) {
+		for _, c := range callInstrs(f) {
+			if staticCalleeShort(c.Common()) != "(*par1.Decoder).buildShards" {
+				continue
+			}
+			n++
+			key := fmt.Sprintf("%s:buildShards#%d", shortName(f), n-1)
+			ok := false
+			for _, cm := range w.factsAt(c) {
+				if parityFact(cm, false) {
+					ok = true
+				}
+			}
+			if ok {
+				r.ok("PAR1NOPAR", key, w.ipos(c), "shards are built only when a parity volume was loaded")
+			} else {
+				r.bad("PAR1NOPAR", key, w.ipos(c), "buildShards is reached also when no parity volume was loaded (shard size 0): its size check then fails with a generic error, so `par r` exits 7 where the property demands 2 (repair needed but not possible) - or fails although nothing needs repair")
+			}
+		}
+	}
+	r.floor("PAR1NOPAR", "buildShards calls in Repair", n, 1)
+	// the no-parity path: a missing data file is reported with the classifier's error
+	found := false
+	for _, b := range fn.Blocks {
+		ret, ok := b.Instrs[len(b.Instrs)-1].(*ssa.Return)
+		if !ok || len(ret.Results) != 2 {
+			continue
+		}
+		ld, ok := ret.Results[1].(*ssa.UnOp)
+		if !ok {
+			continue
+		}
+		g, ok := ld.X.(*ssa.Global)
+		if !ok || g.Name() != "ErrTooFewShards" {
+			continue
+		}
+		noParity, missing := false, false
+		for _, cm := range cmpsAt(b) {
+			if parityFact(cm, true) {
+				noParity = true
+			}
+			if cm.Op == token.EQL && cm.Y != nil {
+				for _, pr := range [][2]ssa.Value{{cm.X, cm.Y}, {cm.Y, cm.X}} {
+					if isNilConst(pr[1]) && typeStr(pr[0].Type()) == "[]byte" {
+						missing = true
+					}
+				}
+			}
+		}
+		if noParity && missing {
+			found = true
+			r.ok("PAR1NOPAR", shortName(fn)+":no-parity-verdict", w.ipos(ret), "without parity volumes a missing data file returns reedsolomon.ErrTooFewShards")
+		}
+	}
+	if !found {
+		r.bad("PAR1NOPAR", shortName(fn)+":no-parity-verdict", w.pos(fn.Pos()), "no path returns reedsolomon.ErrTooFewShards for 'no parity volume loaded and a data file missing': that state is not classified as 'needed but not possible'")
+	}
+}
+
+// ---------------------------------------------------------------------------
+// ZERODIV: division by zero is refused before anything else
+
+const ruleZERODIVText = "zero has no inverse, whatever the dividend: in gf2p16, every return of T.Div is dominated by the divisor having been found non-zero (the panic on u == 0 comes before the shortcut for a zero dividend), and every return of T.Inverse by t != 0 - directly, or through a call of a helper on that value all of whose returns are dominated by its non-zero test"
+
+func ruleZERODIV(w *World, r *Report) {
+	r.rule("ZERODIV", ruleZERODIVText)
+	nonZeroAt := func(b *ssa.BasicBlock, v ssa.Value) bool {
+		for _, c := range cmpsAt(b) {
+			if c.Y == nil || c.Op != token.NEQ {
+				continue
+			}
+			for _, pr := range [][2]ssa.Value{{c.X, c.Y}, {c.Y, c.X}} {
+				if z, ok := constInt(pr[1]); ok && z == 0 && stripAllConv(pr[0]) == v {
+					return true
+				}
+				if z, ok := constUint(pr[1]); ok && z == 0 && stripAllConv(pr[0]) == v {
+					return true
+				}
+			}
+		}
+		return false
+	}
+	var guaranteed func(ret ssa.Instruction, v ssa.Value, depth int) bool
+	guaranteed = func(ret ssa.Instruction, v ssa.Value, depth int) bool {
+		if nonZeroAt(ret.Block(), v) {
+			return true
+		}
+		if depth > 1 {
+			return false
+		}
+		for _, c := range callInstrs(ret.Parent()) {
+			g := c.Common().StaticCallee()
+			if g == nil || len(g.Blocks) == 0 || !w.inModule(g) || !instrDominates(c, ret) {
+				continue
+			}
+			for j, a := range c.Common().Args {
+				if stripAllConv(a) != v || j >= len(g.Params) {
+					continue
+				}
+				all, n := true, 0
+				for _, gb := range g.Blocks {
+					if gr, ok := gb.Instrs[len(gb.Instrs)-1].(*ssa.Return); ok {
+						n++
+						if !guaranteed(gr, g.Params[j], depth+1) {
+							all = false
+						}
+					}
+				}
+				if all && n > 0 {
+					return true
+				}
+			}
+		}
+		return false
+	}
+	n := 0
+	for _, spec := range []struct {
+		fn  string
+		idx int
+	}{{"(gf2p16.T).Div", 1}, {"(gf2p16.T).Inverse", 0}} {
+		fn := w.Fn(spec.fn)
+		if fn == nil || spec.idx >= len(fn.Params) {
+			r.unk("ZERODIV", spec.fn, "", "function not found")
+			continue
+		}
+		v := ssa.Value(fn.Params[spec.idx])
+		k := 0
+		for _, b := range fn.Blocks {
+			ret, ok := b.Instrs[len(b.Instrs)-1].(*ssa.Return)
+			if !ok {
+				continue
+			}
+			key := fmt.Sprintf("%s:return#%d", spec.fn, k)
+			k++
+			n++
+			if guaranteed(ret, v, 0) {
+				r.ok("ZERODIV", key, w.ipos(ret), "returns only after "+fn.Params[spec.idx].Name()+" was found non-zero")
+			} else {
+				r.bad("ZERODIV", key, w.ipos(ret), spec.fn+" can return without "+fn.Params[spec.idx].Name()+" having been tested for zero: 0/0 (or the inverse of 0) yields a value instead of the panic, so a/b = a*inverse(b) fails for that pair")
+			}
+		}
+	}
+	r.floor("ZERODIV", "returns of Div and Inverse", n, 3)
+}
